@@ -93,10 +93,10 @@ def build(chk):
         sub = pats if d == 1 else rng.sample(pats, 6 if quick else 14)
         ctr = Ctr()
         bs = list(binders(d, ctr, sub))
-        if d == 3 and len(bs) > (250 if quick else 6000):
-            bs = rng.sample(bs, 250 if quick else 6000)
-        if d == 2 and len(bs) > (250 if quick else 3000):
+        if d == 3 and len(bs) > (250 if quick else 3000):
             bs = rng.sample(bs, 250 if quick else 3000)
+        if d == 2 and len(bs) > (250 if quick else 1500):
+            bs = rng.sample(bs, 250 if quick else 1500)
         structures += [(d, b) for b in bs]
     for idx, (d, b) in enumerate(structures):
         for name in NAMES:
